@@ -60,6 +60,19 @@ add("C03", "E1 codec-enum + E3 sock-mc (child-process isolated)", "model_checkin
     "Trusted: the counting allocator, child exit statuses. Not covered: byte strings longer than the sweep bound outside the structured family.",
     "bounded-exhaustive input enumeration with process-isolated fault observation + deviation-bounded schedule exploration on real sockets")
 
+add("C04", "E3 sock-mc (sequential, complete product)", "model_checking",
+    "Complete enumeration of the configuration space named by the property: 9 local types x 15 peer Socket-Type values x 5 versions x "
+    "5 mechanisms x 3 signature variants x 5 identity options x 3 first items = 151875 real greeting/READY handshakes over in-memory "
+    "pipes through the same peer_connected path bind and connect use, each compared with a reference admission predicate (RFC "
+    "compatibility table, version >= 3.0, known mechanism, identity <= 255); every admitted configuration is probed behaviourally for "
+    "'registered exactly once, under the announced or a fresh identity' (second peer + strict alternation of sends, exactly-once "
+    "delivery/publish/routed send); every rejected one for 'closed, nothing but greeting/READY written, later traffic never "
+    "delivered'; plus all 144 compatible() queries incl. symmetry and totality.",
+    "DESIGN.md 5.4",
+    "Assumes admission does not depend on scheduling (handshake code is sequential per connection): one execution per configuration. "
+    "Trusted: the transcribed RFC table.",
+    "exhaustive enumeration of the handshake configuration space on the real code against a reference predicate")
+
 PENDING = ["C01","C02","C03","C04","C05","C06","C07","C08","C09","C10","C11","C12","C13","C14","C15","C16","C17","C18","C20"]
 
 def main():
